@@ -178,24 +178,35 @@ pub fn make_wcase(doc: &Doc) -> Option<WCase> {
         sync_payload: Vec::new(),
         sync_log: Vec::new(),
     };
-    for &api in &case.apis.clone() {
-        let (res, bytes) = sync_write(&case, api);
-        if let Some((call, Err(e))) = res.iter().find(|(_, r)| r.is_err()) {
-            fail(&format!("sync writer call {call} failed for"), name, e);
-        }
-        let payload = match class {
-            Class::Bgzf => Some(payload_of(&bytes).unwrap_or_else(|e| fail("sync output is not BGZF", name, e)).0),
-            _ => None,
-        };
-        let log = vnd::read_log(f, &bytes[..], &read_opts(f, bytes.len()));
-        if !log.last().map(|l| vnd::is_end_eof(l)).unwrap_or(false) {
-            fail("sync reader rejects the sync writer's output of", name, format!("{:?}", log.last()));
-        }
-        case.sync_bytes.push(bytes);
-        case.sync_payload.push(payload);
-        case.sync_log.push(log);
-    }
+    case.recompute();
     Some(case)
+}
+
+impl WCase {
+    /// (Re)computes what the synchronous writer produces for the current `flush_every`.
+    pub fn recompute(&mut self) {
+        let name = self.name.clone();
+        self.sync_bytes.clear();
+        self.sync_payload.clear();
+        self.sync_log.clear();
+        for &api in &self.apis.clone() {
+            let (res, bytes) = sync_write(self, api);
+            if let Some((call, Err(e))) = res.iter().find(|(_, r)| r.is_err()) {
+                fail(&format!("sync writer call {call} failed for"), &name, e);
+            }
+            let payload = match self.class {
+                Class::Bgzf => Some(payload_of(&bytes).unwrap_or_else(|e| fail("sync output is not BGZF", &name, e)).0),
+                _ => None,
+            };
+            let log = vnd::read_log(self.format, &bytes[..], &read_opts(self.format, bytes.len()));
+            if !log.last().map(|l| vnd::is_end_eof(l)).unwrap_or(false) {
+                fail("sync reader rejects the sync writer's output of", &name, format!("{:?}", log.last()));
+            }
+            self.sync_bytes.push(bytes);
+            self.sync_payload.push(payload);
+            self.sync_log.push(log);
+        }
+    }
 }
 
 // ------------------------------------------------------------------------------------------ paired drivers
